@@ -33,6 +33,7 @@ int main() {
     return run_cases([](Toks &t, std::ostream &out) {
         if (t.a.size() && t.a[0] == "N8") { t.next(); run_hist<std::uint8_t>(t, out); }
         else if (t.a.size() && t.a[0] == "N16") { t.next(); run_hist<std::uint16_t>(t, out); }
+        else if (t.a.size() && t.a[0] == "N64") { t.next(); run_hist<std::size_t>(t, out); }     // std::size_t with coordinates up to SIZE_MAX
         else run_hist<std::size_t>(t, out);
     });
 }
